@@ -82,7 +82,7 @@ class C18(Prop):
             p = [rng.randrange(4) if (t % 3 == 0 or rng.random() < 0.08) else 0 for _ in range(n)] + [rng.choice((0, 2))]
             p[n - 1 - t % 4] = p[n - 1 - t % 4] or 1 + t % 3
             p[62 + t % 3] = p[62 + t % 3] or 2
-            yield {"k": "diag", "p": p, "i0": (1, 64, 65, n, 63, 66)[t % 6], "causal": t % 2 == 1, "pkg": "py"}
+            yield {"k": "diag", "p": p, "i0": (1, 64, 65, n, 63, 66)[t % 6], "causal": t % 2 == 1}
         # anticommuting pairs for pauli_diagonalize2: partner rows of valid maps
         for n in (1, 2):
             pick = self.maps[n] if (n == 1 or thorough) else rng.sample(self.maps[n], 1200)
